@@ -20,6 +20,7 @@ TNext ==
     \/ Is("poll") /\ P_ConnectDone(E.c, E.res, E.lp, E.pp, E.obs)
     \/ Is("cancel") /\ P_Cancel(E.c, E.obs)
     \/ Is("accept") /\ P_Accept(E.pp, E.lp, E.obs)
+    \* a vectored write offers the concatenation of its slices (E.data)
     \/ Is("write") /\ P_Write(<<E.p, E.side>>, E.data, E.res, E.n, E.obs)
     \/ Is("read") /\ P_Read(<<E.p, E.side>>, E.n, E.res, E.bytes, E.obs)
     \/ Is("shutdown") /\ P_Shutdown(<<E.p, E.side>>, E.res, E.obs)
